@@ -112,16 +112,6 @@ theorem annOf_set_ne (k : Kind) (ts : List Term) (t j : Nat) (v : List Nat) (h :
     have : ¬ u.id = t := by omega
     simp [this]
 
-theorem get_eq_getT (o : Onto) (j : Nat) (hs : ∀ j, (getT o.terms j).isSome → j < maxId) :
-    o.get j = getT o.terms j := by
-  unfold Onto.get arenaGet
-  split
-  · rename_i hge
-    cases h : getT o.terms j with
-    | none => rfl
-    | some t => have := hs j (by simp [h]); omega
-  · rfl
-
 section
 variable (anc : Nat → List Nat) (ex : Nat → Prop)
 
